@@ -539,7 +539,10 @@ def resolve_strategy_inline_recurse(path, base, decisions):
     decisions.decisions = []
 
     for d in old_decisions:
-        if not d.conflict:
+        if not d.conflict or d.common_path != ('cells',):
+            # Only conflicts on the cells list itself are handled here.
+            # Conflicts recorded below a cell (e.g. on the outputs of a cell
+            # that the other side deleted) can have an empty diff on one side
             decisions.decisions.append(d)
             continue
         assert d.local_diff and d.remote_diff
